@@ -11,7 +11,8 @@ FOCUS = ("C05",)
 RULE = ("four generated sub-checks. (1) retarget arithmetic: calculate_new_target(prev, elapsed) == min(prev*elapsed // "
         "1,209,600, 2^256-1) as 32 big-endian bytes, prev boundary-biased over [0,2^256), elapsed in [1,2^40]; "
         "validate_proof_of_work raises iff int(id) >= int(target) over random/equal/adjacent 32-byte pairs. "
-        "(2) histories with exactly one header rule broken per mutated candidate (target +-1, un-retargeted at a boundary, "
+        "(2) histories with exactly one header rule broken per mutated candidate (target +-1, un-retargeted at a boundary, the "
+        "target the rule would give from ANOTHER branch's interval start, "
         "retargeted inside a period, height +-1, reward height +-1, timestamp = / < parent's, = now+31, id >= target, each "
         "evidence field flipped in one bit, evidence of a sibling, unknown parent, wrong merkle root) under patched short "
         "periods AND on fabricated deep states with the real 10,080/1,209,600 and forks straddling a real boundary; the "
@@ -209,7 +210,7 @@ def _assembly(res, tier, seed, i):
     @hypothesis.seed(env.subseed(seed, ID, "asm", i))
     @settings(max_examples=n, deadline=None, database=None, suppress_health_check=list(hypothesis.HealthCheck),
               phases=[hypothesis.Phase.generate])
-    @given(st.randoms(use_true_random=False), st.sampled_from(chainexec.CFGS[:3] + chainexec.CFGS[:3] + chainexec.CFGS[3:]),
+    @given(st.randoms(use_true_random=True), st.sampled_from(chainexec.CFGS[:3] + chainexec.CFGS[:3] + chainexec.CFGS[3:]),
            st.integers(4, 10), st.booleans())
     def prop(rnd, cfg, nb, deep):
         deepd = chainexec.gen_deep(rnd) if (deep and cfg[0] == R.REAL_PERIOD) else None
@@ -265,7 +266,7 @@ def run(shard, tier, seed):
         _assembly(res, tier, seed, shard["i"])
         return res
     n = 25 if tier == "quick" else 400
-    nb = (6, 14) if tier == "quick" else (6, 30)
+    nb = (8, 18) if tier == "quick" else (8, 30)
     orig = chainexec.Run.execute
 
     def execute_and_compare(self):
@@ -279,7 +280,8 @@ def run(shard, tier, seed):
     _shrinking = [False]
     chainexec.Run.execute = execute_and_compare
     try:
-        r = chainexec.drive(res, env.subseed(seed, ID, shard["i"]), n, tier, FOCUS, CATS, ID, n_blocks=nb, p_mut=0.45, p_deep=0.25)
+        r = chainexec.drive(res, env.subseed(seed, ID, shard["i"]), n, tier, FOCUS, CATS, ID, n_blocks=nb, p_mut=0.45, p_deep=0.25,
+                            p_fork=0.55, dts_mix=[None, [60, 90, 120, 150, 240, 400], [100, 120, 140, 1000]])
     finally:
         chainexec.Run.execute = orig
     return r
